@@ -1,4 +1,5 @@
 import RubyTi.Proofs.MatchLemmas
+import RubyTi.Proofs.BindLemmas
 
 /-!
 # C07 — definite misuse is reported (the per-argument decision)
@@ -8,8 +9,14 @@ possible value of `a` (its variants when it is a union) is rejected by `d`, the 
 block / untyped / unknown value, `d` is not untyped and a union parameter has at least one variant,
 then checkArgType reports a mismatch. False before the `fix:` commits on IsMatchUnionType /
 IsMatchType: `Foo` was accepted for `GPIO|String`, `Union<Foo String>` for `Union<Bar String>`.
-Receiver lookup, argument counting and binding are checked by the streams and end-to-end; rest
-(`*T`) parameters do not check their element type (known finding K28).
+`too_many_reported`, `missing_required_reported`, `rejected_argument_reported`: on the model of the
+binding loop of checkAndPropagateArgs (`Model/Bind.lean`, tied by the `bind` stream through hooks that
+declare a configured method and call the real loop), for every positional signature and every list of
+positional arguments: more arguments than parameters, a parameter without default left without an
+argument, or an argument all of whose possible values the parameter at its position rejects — each
+makes the call be reported (`bind_pos_ok_iff`: accepted exactly when it fits). Rest and keyword
+parameters are covered by the stream and end-to-end; rest (`*T`) parameters do not check their element
+type (known finding K28). Receiver lookup: C16's `lookup` stream.
 -/
 namespace RubyTi.C07
 open RubyTi RubyTi.Match Gen.Tok
@@ -95,5 +102,79 @@ example : checkArg (T.makeUnion [T.makeObject "GPIO".toList, T.makeAnyString]) (
 
 example : checkArg (T.makeUnion [T.makeObject "Bar".toList, T.makeAnyString])
     (T.makeUnion [T.makeObject "Foo".toList, T.makeAnyString]) = false := by decide
+
+/-! ## counts and binding (positional signatures) -/
+section
+open RubyTi.Bind
+
+/-- more arguments than the signature has parameters: reported -/
+theorem too_many_reported (ps : List Param) (hps : posOnly ps) (as : List T) (h : as.length > ps.length) :
+    bind ps (as.map Arg.pos) ≠ .ok := by
+  intro hok
+  have := fitsB_length as ps ((bind_pos_ok_iff ps hps as).mp hok)
+  omega
+
+theorem fitsB_default_tail (as : List T) (ps : List Param) (h : fitsB as ps = true) :
+    ∀ i, (hi : i < ps.length) → as.length ≤ i → (ps[i]).t.fl.hasDefault = true := by
+  induction as generalizing ps with
+  | nil =>
+    intro i hi _
+    simp only [fitsB] at h
+    exact List.all_eq_true.mp h _ (List.getElem_mem hi)
+  | cons a rest ih =>
+    cases ps with
+    | nil => simp [fitsB] at h
+    | cons p ps' =>
+      intro i hi hle
+      simp only [fitsB, Bool.and_eq_true] at h
+      cases i with
+      | zero => simp at hle
+      | succ j =>
+        simp only [List.getElem_cons_succ]
+        exact ih ps' h.2 j (by simpa using hi) (by simpa using hle)
+
+/-- a parameter without default that no argument reaches: reported -/
+theorem missing_required_reported (ps : List Param) (hps : posOnly ps) (as : List T) (i : Nat) (hi : i < ps.length)
+    (hle : as.length ≤ i) (hreq : (ps[i]).t.fl.hasDefault = false) :
+    bind ps (as.map Arg.pos) ≠ .ok := by
+  intro hok
+  have := fitsB_default_tail as ps ((bind_pos_ok_iff ps hps as).mp hok) i hi hle
+  rw [hreq] at this
+  exact absurd this (by decide)
+
+theorem fitsB_checks (as : List T) (ps : List Param) (h : fitsB as ps = true) :
+    ∀ i, (hi : i < as.length) → (hp : i < ps.length) → Match.checkArg (ps[i]).t (as[i]) = true := by
+  induction as generalizing ps with
+  | nil => intro i hi; simp at hi
+  | cons a rest ih =>
+    cases ps with
+    | nil => simp [fitsB] at h
+    | cons p ps' =>
+      intro i hi hp
+      simp only [fitsB, Bool.and_eq_true] at h
+      cases i with
+      | zero => simpa using h.1
+      | succ j =>
+        simp only [List.getElem_cons_succ]
+        exact ih ps' h.2 j (by simpa using hi) (by simpa using hp)
+
+/-- an argument all of whose possible values are rejected by the parameter at its position: reported -/
+theorem rejected_argument_reported (ps : List Param) (hps : posOnly ps) (as : List T) (i : Nat) (hi : i < as.length)
+    (hp : i < ps.length) (hne : possible (as[i]) ≠ [])
+    (hblock : (as[i]).tag ≠ BLOCK) (hau : (as[i]).tag ≠ UNTYPED) (hak : (as[i]).tag ≠ UNKNOWN)
+    (hdu : (ps[i]).t.tag ≠ UNTYPED) (hdne : (ps[i]).t.tag = UNION → (ps[i]).t.variants ≠ [])
+    (hrej : ∀ v ∈ possible (as[i]), admits (ps[i]).t v = false) :
+    bind ps (as.map Arg.pos) ≠ .ok := by
+  intro hok
+  have h1 := fitsB_checks as ps ((bind_pos_ok_iff ps hps as).mp hok) i hi hp
+  rw [rejected_reported (ps[i]).t (as[i]) hne hblock hau hak hdu hdne hrej] at h1
+  exact absurd h1 (by decide)
+
+/-- non-vacuity: `m(Int, String = default)` called with three arguments, with none, and with a Float first -/
+example :
+    let ps : List Param := [{ kind := .pos, t := T.makeAnyInt }, { kind := .pos, t := T.makeBuiltinDefaultString }]
+    bind ps ([T.makeInt, T.makeAnyString, T.makeInt].map Arg.pos) = .tooMany ∧ bind ps [] = .tooFew ∧
+    bind ps ([T.makeFloat].map Arg.pos) = .mismatch ∧ bind ps ([T.makeInt].map Arg.pos) = .ok := by decide
+end
 
 end RubyTi.C07
